@@ -2,6 +2,7 @@
 Handlers for channels and rate–distortion (C13): Core/Channel evaluated in `Float`.
 -/
 import DitModel.Core.Channel
+import DitModel.Core.BA
 import DitModel.Drv.Info
 namespace Dit.Drv
 open Dit
@@ -35,6 +36,26 @@ def hChanF : J → Option J
       | _ => none
   | _ => none
 
-def channelHandlers : List (String × (J → Option J)) := [("chanf", hChanF)]
+/-- `baf [kind, beta, p, W0, k, pxy]`: the first `k` iterates of `_blahut_arimoto` (no stopping rule) with the
+distortion function `kind` ∈ hamming | residual | ib; returns `[[W_i, d_i], …]`, `i = 0..k`. -/
+def hBaF : J → Option J
+  | .arr [.str kind, beta, p, W0, k, pxy] => do
+      let beta ← beta.toFloat?
+      let p ← J.toList? J.toFloat? p
+      let W0 ← J.toFMat? W0
+      let k ← k.toNat?
+      let pxy ← J.toFMat? pxy
+      let n := W0.length
+      let m := (W0.headD []).length
+      let distFn : List (List Float) → List (List Float) := match kind with
+        | "hamming" => fun _ => hammingDist n m
+        | "residual" => residualDist Float.log2 p
+        | _ => ibDist Float.log2 pxy
+      if kind != "hamming" && kind != "residual" && kind != "ib" then none else
+      pure (listJ (fun (st : List (List Float) × Float) => J.arr [listJ (listJ floatJ) st.1, floatJ st.2])
+        (baIterates Float.exp2 beta p distFn k W0))
+  | _ => none
+
+def channelHandlers : List (String × (J → Option J)) := [("chanf", hChanF), ("baf", hBaF)]
 
 end Dit.Drv
